@@ -102,6 +102,7 @@ class Server:
     """A real StorageServer in its own directory, optionally behind a real HTTPServer."""
     def __init__(self, workdir, http, expiring=False):
         self.dir = tempfile.mkdtemp(prefix="srv", dir=workdir)
+        self.raised = []
         self.t0 = vr.seconds()
         if expiring:
             # lease expiration enabled (mode "age", the leases' own duration); the crawler is not started as a
@@ -124,7 +125,10 @@ class Server:
         d.addBoth(out.append)
         n = 0
         while not out:
-            vr.advance(0)
+            try:
+                vr.advance(0)
+            except Exception as ex:     # a zero-delay call of the code under test raised: an observation of this request
+                self.raised.append(type(ex).__name__)
             self.stub.flush()
             n += 1
             if n > 20000:
@@ -581,6 +585,8 @@ def exec_raw(g, srv, r):
     ab = abstract_body(r["ep"], status, content)
     hasdata = any(content[i:i + 3] in g.known for i in range(len(content) - 2))
     e = {"ev": "Req", "r": r, "status": status, "body": ab, "hasdata": hasdata, "same": same}
+    if srv.raised:
+        e["raised"], srv.raised = list(srv.raised), []
     if r["si"] in SI and not same:
         e["obs"] = srv.obs(r["si"])      # (when no file changed the Spec must not expect an observable change either)
     after(g, r, status, ab)
@@ -605,11 +611,15 @@ def vary_args(g, r):
 
 def advance_event(g, servers):
     dt = g.rng.choice([1, 60, 600, 900, 1200, 1800, 1801])
-    vr.advance(dt)
+    crash = ""
+    try:
+        vr.advance(dt)
+    except Exception as ex:      # a timer of the code under test (bucket-writer timeout) raised: an observation
+        crash = type(ex).__name__
     for k in list(g.uploads):
         if servers[0].obs(k[0])[k[1]]["st"] != "incoming":
             del g.uploads[k]
-    e = {"ev": "Advance", "dt": dt, "obsall": servers[0].obsall()}
+    e = {"ev": "Advance", "dt": dt, "crash": crash, "obsall": servers[0].obsall()}
     if len(servers) > 1:
         e["dobsall"] = servers[1].obsall()
     return e
@@ -906,6 +916,8 @@ def exec_twin(g, h, d, writers, r, with_direct, lose=False):
     h.rec.lose = 0
     same = h.digest() == before
     e = {"ev": "Req", "r": r, "status": status, "body": body, "hasdata": False, "same": same, "how": how}
+    if h.raised:
+        e["raised"], h.raised = list(h.raised), []
     if lose:
         # the server handled the request, the answer never reached the client: the call either fails or reports the
         # answer of that one application; the servers' states are those of one application
